@@ -147,7 +147,7 @@ def _fasta_universe(ctx, cfg, F):
         pepsets[PREFIX + n] = {p[::-1][1:] + p[-1] if False else "D" + p for p in peps}
     F._parse_fasta_files = lambda files: list(order)
     F._parse_protein = lambda e: (e, e)
-    F.digest = lambda seq, **kw: set(pepsets[seq])
+    F.digest = lambda seq, *a, **kw: set(pepsets[seq])
     pr = F.read_fasta("ignored", decoy_prefix=PREFIX)
     ident = [(p, g) for p, g in pr.peptide_map.items()] + [(p, None) for p in pr.shared_peptides]
     return dict(pr.peptide_map), dict(pr.shared_peptides), dict(pr.protein_map), ident
